@@ -193,13 +193,21 @@ func execFifo(toks []string) string {
 // delivered in time (sw) or none ever is (none): a small bookkeeping of "which exchanges of
 // which client are on record" (histories are short: never more than 7 exchanges per client).
 func expectKinds(reg string, idents []int, evs []event) string {
+	k, _ := expectKindsRec(reg, idents, evs)
+	return k
+}
+
+// expectKindsRec: the same, and which exchanges of the history are on record at its end
+// (1 / 0 per NTP event, - for the others)
+func expectKindsRec(reg string, idents []int, evs []event) (string, string) {
 	rec := map[int]map[int]bool{} // client identity -> events on record
 	out := make([]byte, len(evs))
 	for j, e := range evs {
 		switch e.letter {
 		case 'e', 't', 'f':
 			out[j] = e.letter
-		case 'x':
+		case 'x', 'r', 'w':
+			// r, w: handled and recorded, but nothing is sent: never on record afterwards
 			out[j] = '-'
 		case 'n', 'q':
 			id := idents[e.src]
@@ -219,7 +227,18 @@ func expectKinds(reg string, idents []int, evs []event) string {
 			}
 		}
 	}
-	return string(out)
+	onrec := make([]byte, len(evs))
+	for j, e := range evs {
+		switch {
+		case e.letter != 'n' && e.letter != 'q' && e.letter != 'r' && e.letter != 'w':
+			onrec[j] = '-'
+		case rec[idents[e.src]][j]:
+			onrec[j] = '1'
+		default:
+			onrec[j] = '0'
+		}
+	}
+	return string(out), string(onrec)
 }
 
 // ---------------------------------------------------------------- generation
@@ -305,6 +324,18 @@ func (g *genState) randomHist(r *lib.Rand, kind, reg string, n int) hist {
 		case kind == "scion" && x < 32 && src >= 8:
 			h.evs = append(h.evs, fmt.Sprintf("f%d", src))
 			g.c.Count("ev:forward")
+		case kind == "scion" && x >= 36 && x < 46 && src < 8 && perIdent[id] < 7:
+			// a valid request over a path that cannot be reversed: handled, recorded, nothing sent
+			perIdent[id]++
+			h.evs = append(h.evs, fmt.Sprintf("r%d", src))
+			g.c.Count("ev:ntp-unsent-irreversible-path")
+			ntpEv = append(ntpEv, j)
+		case x >= 46 && x < 54 && src < 8 && perIdent[id] < 7:
+			// a valid request from UDP source port 0: handled, recorded, the write of the reply fails
+			perIdent[id]++
+			h.evs = append(h.evs, fmt.Sprintf("w%d", src))
+			g.c.Count("ev:ntp-unsent-write-error")
+			ntpEv = append(ntpEv, j)
 		case x < 36:
 			h.evs = append(h.evs, fmt.Sprintf("x%d", src))
 			g.c.Count("ev:dropped-datagram")
@@ -448,7 +479,10 @@ func (g *genState) judge(h hist, ans string, obs *histObs) (sig, what string) {
 		upto = i
 	}
 	if h.reg != "late" {
-		want := expectKinds(h.reg, h.idents, obs.evs)
+		want, wantRec := expectKindsRec(h.reg, h.idents, obs.evs)
+		if upto == len(ks) && ks == want && obs.rec != wantRec && !tainted[obs.cfg] {
+			return "C06:tx:record", fmt.Sprintf("exchanges on record at the end of the history: %s, expected %s (1 = the exchange of that event is on record: its reply was sent and its kernel transmit timestamp was read)", obs.rec, wantRec)
+		}
 		for i := 0; i < upto; i++ {
 			if ks[i] != want[i] {
 				if h.reg == "none" && ks[i] == 'i' {
@@ -518,6 +552,17 @@ func gen(c *lib.Ctx) {
 		{"scion", "01", "e1,n0:b,e1,n0:1,t1,n1:b,n0:3,n1:5"},
 		{"scion", "000000000", "n8:b,f8,n8:0,f8,f8,n8:2,e8,n8:5"},
 		{"scion", "01", "x0,n0:b,x0,e0,n0:1,q0:4,n1:4,n0:4"},
+		// recorded by handleRequest, then nothing sent (irreversible path); later requests quote it
+		{"scion", "0", "r0,n0:0"},
+		{"scion", "0", "n0:b,r0,n0:1,n0:0,n0:3"},
+		{"scion", "01", "n0:b,r1,n1:1,r0,n0:3,n0:0,q1:1"},
+		{"scion", "0", "n0:b,n0:0,r0,e0,q0:2,n0:2,n0:1"},
+		// the same through a failing write: request from UDP source port 0
+		{"ip", "0", "w0,n0:0"},
+		{"ip", "0", "n0:b,w0,n0:1,n0:0,n0:3"},
+		{"ip", "01", "n0:b,w1,n1:1,w0,n0:3,n0:0,q1:1"},
+		{"scion", "0", "w0,n0:0"},
+		{"scion", "01", "n0:b,w1,r0,n1:1,n0:2,n0:0"},
 	}
 	for _, reg := range regs {
 		for _, k := range corpus {
